@@ -35,8 +35,15 @@ fn main() {
                 "setup" => {
                     setup_random(&mut g, &mut rng, round);
                     if !g.dead {
-                        let pol = [Policy::Random, Policy::Contact][round % 2];
-                        play(&mut g, &mut rng, pol, 24, 0.0);
+                        if round % 3 == 2 {
+                            // the game that follows a REAL setup (not a parsed position) is confined to the
+                            // two a/b-file corners, so that the opening position itself recurs
+                            let region: Vec<usize> = vec![48, 49, 40, 41, 32, 33, 8, 9, 16, 17, 24, 25];
+                            play_confined(&mut g, &mut rng, &region, 160, 0.02);
+                        } else {
+                            let pol = [Policy::Random, Policy::Contact][round % 2];
+                            play(&mut g, &mut rng, pol, 24, 0.0);
+                        }
                     }
                 }
                 "random" => {
